@@ -100,7 +100,8 @@ class AbsPDF:
         return self.vm.trainable_variables
 
     def cached_available(self):
-        return True
+        # a trace made while parameters are masked would keep the mask values
+        return not self.vm.mask_vars
 
     def __call__(self, data, cached=False):
         if isinstance(data, LazyCall):
@@ -177,7 +178,17 @@ class BaseAmplitudeModel(AbsPDF):
         return self.decay_group.chains_particle()
 
     def cached_available(self):
-        return not self.decay_group.not_full
+        if self.decay_group.not_full or self.vm.mask_vars:
+            return False
+        # mask_factor flags (temp_total_gls_one) are Python values: a trace
+        # made or used while one is set would not see the change
+        for i in self.decay_group:
+            if getattr(i, "mask_factor", False):
+                return False
+            for j in i:
+                if getattr(j, "mask_factor", False):
+                    return False
+        return True
 
     def pdf(self, data):
         ret = self.decay_group.sum_amp(data)
